@@ -327,7 +327,21 @@ def matmul_case(rng, la, lb, m, k, n, ta, tb, cform, mode, grads=False, kmis=0):
     bd = lb + ([n, kb] if tb else [kb, n])
     L = ["new a %s %s" % (dims_s(ad), vals_s(gen_vals(rng, prod(ad), mode), mode)),
          "new b %s %s" % (dims_s(bd), vals_s(gen_vals(rng, prod(bd), mode), mode))]
-    cd = {0: None, 1: [n], 2: [m, n], 3: [1, n], 4: [1]}[cform]
+    cd = {0: None, 1: [n], 2: [m, n], 3: [1, n], 4: [1]}.get(cform, "batched")
+    if cd == "batched":
+        # an additive term with its own leading dimensions that fit the broadcast batch dimensions:
+        # form 5: the full batch shape, 6: unit dimensions where possible (alternating), 7: only the innermost batch dimension
+        lead_ = compat(la, lb) or []
+        if not lead_:
+            cd = [m, n]
+        elif cform == 5:
+            cd = lead_ + [m, n]
+        elif cform == 6:
+            cd = [d if i % 2 == 0 else 1 for i, d in enumerate(lead_)] + [1 if m > 1 and rng.random() < 0.5 else m, n]
+        elif cform == 7:
+            cd = lead_[-1:] + [m, n]
+        else:
+            cd = [1 if i % 2 == 0 else d for i, d in enumerate(lead_)] + [m, n]
     if cd is not None:
         L.append("new c %s %s" % (dims_s(cd), vals_s(gen_vals(rng, prod(cd), mode), mode)))
     if grads:
@@ -354,7 +368,7 @@ def fam_matmul(rng, n, tier, mode="exact", grads=False):
                     if tier != "thorough":
                         combos = rng.sample(combos, 2)
                     for (m, k, nn) in combos:
-                        cf = rng.randrange(5)
+                        cf = rng.randrange(9) if (la or lb) else rng.randrange(5)
                         cases.append(Case(matmul_case(rng, la, lb, m, k, nn, ta, tb, cf, mode, grads),
                                           ("mm", tuple(la), tuple(lb), m, k, nn, ta, tb, cf, grads),
                                           ["lead%d%d" % (len(la), len(lb)), "t%d%d" % (ta, tb), "c%d" % cf,
@@ -373,6 +387,13 @@ def fam_matmul(rng, n, tier, mode="exact", grads=False):
                 for la in ([], [2]):
                     cases.append(Case(matmul_case(rng, la, la, 2, 2, 2, ta, tb, 0, mode, False, kmis=1),
                                       ("mmbad", ta, tb, tuple(la)), ["innermismatch"], mode))
+        # two batch dimensions on one side, a plain matrix on the other, every form of the additive term
+        for (la_, lb_) in (([2, 2], []), ([], [2, 2]), ([2, 2], [2, 1]), ([3, 2], [2]), ([2, 1], [1, 3])):
+            for ta in (False, True):
+                for tb in (False, True):
+                    for cf in range(9):
+                        cases.append(Case(matmul_case(rng, la_, lb_, 2, 3, 2, ta, tb, cf, mode, grads),
+                                          ("mm2b", tuple(la_), tuple(lb_), ta, tb, cf, grads), ["batch2", "c%d" % cf], mode))
         # rank-1 forms
         for k in (1, 2, 3):
             for nn in (1, 2, 3):
@@ -396,7 +417,7 @@ def fam_matmul(rng, n, tier, mode="exact", grads=False):
             la = [1 if rng.random() < 0.3 else d for d in lead][rng.randint(0, len(lead) - 1) if rng.random() < 0.4 else 0:]
             lb = [1 if rng.random() < 0.3 else d for d in lead][rng.randint(0, len(lead) - 1) if rng.random() < 0.4 else 0:]
         m, k, nn = rng.randint(1, 4), rng.randint(1, 4), rng.randint(1, 4)
-        ta, tb, cf = rng.random() < 0.5, rng.random() < 0.5, rng.randrange(5)
+        ta, tb, cf = rng.random() < 0.5, rng.random() < 0.5, rng.randrange(9)
         cases.append(Case(matmul_case(rng, la, lb, m, k, nn, ta, tb, cf, mode, grads),
                           ("mmr", tuple(la), tuple(lb), m, k, nn, ta, tb, cf, grads),
                           ["random", "t%d%d" % (ta, tb), "c%d" % cf], mode))
@@ -1241,10 +1262,15 @@ def fam_train(rng, n, tier, mode="exact", forward_only=False):
             L.append("fwd out%d M x%d" % (it, it))
             if xtracked:
                 L.append("flags x%d" % it)
-            if rng.random() < 0.12:
+            xr = rng.random()
+            if xr < 0.12:
                 # a target equal to the current output, element for element (soft labels copied from the
                 # prediction): mse is then 0 with zero gradients, cross-entropy is not
                 L.append("bwd M out%d" % it)
+            elif xr < 0.30:
+                # the caller differentiates its own loss on the model's output (Array::backward, not
+                # Model::backward) and then asks the model to step: the gradients are on the parameters all the same
+                L += ["sub hd%d out%d y%d" % (it, it, it), "mul hl%d hd%d hd%d" % (it, it, it), "backward hl%d -" % it]
             else:
                 L.append("bwd M y%d" % it)
             L.append("params M")
@@ -1867,10 +1893,17 @@ def fam_scalar_edges(rng, n, tier, mode="float"):
     clamp, an epsilon or a cast that differs between the scalar types shows here first."""
     cases = []
     mags = [1e-30, 1e-20, 1e-12, 1e-10, 1e-8, 1e-7, 3e-7, 1e-6, 1e-4, 1e-2, 0.5, 1.0, 2.0, 10.0, 30.0, 80.0, 1e3, 1e6, 1e10, 1e20, 1e30]
+    if mode == "float":
+        # doubles whose square or cube leaves the representable range while the derivative does not
+        mags = [1e-200, 1.5e-164, 1e-110, 1e-60] + mags + [1e60, 1e110, 1.3e157, 1e200]
     ops = [("ln", "ln r a", True), ("exp", "exp r a", False), ("recip", "recip r a", False), ("sigmoid", "sigmoid r a", False),
            ("relu", "relu r a", False), ("softmax", "softmax r a", False), ("neg", "neg r a", False)]
     for e in (-1.5, -1.0, 0.5, 2.0, 3.0):
         ops.append(("powf%g" % e, "powf r a %s" % sc(e, mode), True))
+    # integral exponents at and around the integer / float precision limits, on negative and positive bases
+    for e in (2.0 ** 31, 2.0 ** 31 - 128, 2.0 ** 24, 2.0 ** 24 + 2, 2.0 ** 53, 4.0, 5.0, -2.0, -3.0, 0.0, 1.0, 65536.0, 65537.0):
+        for base in ([-1.0, 1.0], [-2.0, 0.5], [-0.5, 2.0], [-1.0, -1.0]):
+            cases.append(Case(["new a 2 %s" % vals_s(base, mode), "powf r a %s" % sc(e, mode)], ("edgepow", e, tuple(base)), ["powf", "exponent"], mode))
     for (name, line, posonly) in ops:
         for m in mags:
             for sign in ((1,) if posonly else (1, -1)):
@@ -1958,6 +1991,16 @@ def fam_sizes(rng, n, tier, mode="exact", part="all", grads=False):
                                 continue
                             cases.append(Case(matmul_case(rng, [], [], m_, k_, n_, ta, tb, cf, mode, grads),
                                               ("sz-mm", L, m_, k_, n_, ta, tb, cf, grads), ["matmul", "len%d" % L], mode))
+            v = vals_s(small(L), mode)
+            for (bd, tb) in (([L, 3], "N"), ([3, L], "T"), ([2, L, 2], "N")):
+                cases.append(Case(["new a %d %s" % (L, v), "new b %s %s" % (dims_s(bd), vals_s(small(prod(bd)), mode)),
+                                   "matmul r a N b %s -" % tb], ("sz-r1", L, tuple(bd), tb), ["matmul", "rank1", "len%d" % L], mode))
+            cases.append(Case(["new a %d %s" % (L, v), "new b %d %s" % (L, vals_s(small(L), mode)), "matmul r a N b N -"],
+                              ("sz-dot", L), ["matmul", "dot", "len%d" % L], mode))
+            # rank-1 operands whose (transposed) inner dimension cannot match: must be refused whatever the length
+            for (bd, ta, tb) in (([2, 3], "T", "N"), ([3, 2], "T", "T"), ([L + 1, 2], "N", "N"), ([2, 3], "N", "N")):
+                cases.append(Case(["new a %d %s" % (L, v), "new b %s %s" % (dims_s(bd), vals_s(small(prod(bd)), mode)),
+                                   "matmul r a %s b %s -" % (ta, tb)], ("sz-r1bad", L, tuple(bd), ta, tb), ["matmul", "rank1", "refuse", "len%d" % L], mode))
             if L <= 33:
                 cases.append(Case(matmul_case(rng, [2], [1], 2, L, 2, False, True, 1, mode, grads),
                                   ("sz-mmb", L, grads), ["matmul", "batched", "len%d" % L], mode))
